@@ -58,6 +58,18 @@ def small_program(r):
         if r.random() < 0.5:
             ops.append(('OAddRequired', N(3), ('ArgW', ('WPlain', N(2))), False, Z(0), Z(0)))
         return ops
+    if r.random() < 0.12:
+        # a cumulative worker whose units are not interchangeable (productivity not a multiple of the size) and tasks with
+        # different work amounts: which task gets which unit must not depend on the order of declaration
+        ops = [('ONewProblem', terms.optZ(r.choice([2, 3])))]
+        works = [4, 2]
+        r.shuffle(works)
+        for i, w in enumerate(works, 1):
+            ops.append(('ONewTask', N(i), ('KFixed', Z(2)), False, Z(w), None, None, False, Z(1)))
+        ops.append(('ONewCumulative', N(1), Z(2), Z(3), ('CostConst', Z(r.choice([0, 5])))))
+        for i in (1, 2):
+            ops.append(('OAddRequired', N(i), ('ArgC', N(1)), False, Z(0), Z(0)))
+        return ops
     ops = [('ONewProblem', terms.optZ(hz))]
     nt = r.randint(2, 3)
     for i in range(1, nt + 1):
@@ -117,11 +129,18 @@ def small_program(r):
 def permute_declarations(r, prog):
     """same problem, the declarations of one kind in another order (dependencies respected by keeping the blocks
     in place: only the relative order of the ops of the chosen kind changes)"""
-    kinds = [k for k in ('ONewTask', 'ONewWorker', 'ONewConstraint') if sum(1 for o in prog if o[0] == k) >= 2]
+    kinds = [k for k in ('ONewTask', 'ONewWorker', 'ONewConstraint', 'OAddRequired') if sum(1 for o in prog if o[0] == k) >= 2]
     if not kinds:
         return None, None
     k = r.choice(kinds)
     idx = [i for i, o in enumerate(prog) if o[0] == k]
+    if k == 'OAddRequired':
+        # only the requirements made once every resource exists can be exchanged
+        last_res = max([i for i, o in enumerate(prog) if o[0] in ('ONewWorker', 'ONewCumulative', 'ONewSelect')] + [-1])
+        first_cons = min([i for i, o in enumerate(prog) if o[0] in ('ONewConstraint', 'ONewIndicator', 'ONewObjective', 'ONewBuffer')] + [len(prog)])
+        idx = [i for i in idx if last_res < i < first_cons]
+        if len(idx) < 2:
+            return None, None
     if k == 'ONewConstraint':
         # constraints may refer to each other only through logical combinations (not generated here)
         pass
@@ -336,8 +355,7 @@ def run(ctx, replay=None):
         progs = [small_program(r) for _ in range(cfg['n'][0 if quick else 1])]
     t1 = time.time()
     # one fresh process per case: the first observation of a case is made in a process that has built nothing before
-    with mp.get_context('fork').Pool(16, maxtasksperchild=1) as pool:
-        results = pool.map(observe_case, [(i, p, ctx.seed) for i, p in enumerate(progs)], chunksize=1)
+    results = common.pmap(observe_case, [(i, p, ctx.seed) for i, p in enumerate(progs)])
     t_impl = time.time() - t1
     findings = common.load_findings(ctx.prop)
     open_kinds = {f['clause_kind']: f for f in findings if f['status'] == 'open'}
